@@ -65,6 +65,10 @@ func c19Req(v *vCore, kind, name, tag, token string) (*logical.Response, error) 
 	case "create-orphan":
 		return v.Do(vReq{Tag: tag, Op: logical.UpdateOperation, Path: "auth/token/create-orphan", Token: token, Data: map[string]any{"policies": []string{"default"}, "ttl": "1h"}})
 	}
+	if c19IsOperatorKind(kind) {
+		// the operator endpoints that are served outside the ordinary request pipeline
+		return nil, c19OperatorReq(v, kind, tag, token)
+	}
 	panic(kind)
 }
 
@@ -171,6 +175,7 @@ func c19Case(t *testing.T, v *vCore, r *kit.Result, caseID string, n int, kinds 
 	uses := 0
 	okReads := 0
 	var uncountedExistfail []string
+	var uncountedOperator []string
 	var leasesIssued []string
 	for i, k := range kinds {
 		tag := fmt.Sprintf("q%d", i)
@@ -222,6 +227,17 @@ func c19Case(t *testing.T, v *vCore, r *kit.Result, caseID string, n int, kinds 
 			if !used {
 				uncountedExistfail = append(uncountedExistfail, tag)
 			}
+		default:
+			if c19IsOperatorKind(k) {
+				// presented with a token that lacks the privilege: must be refused, and counts
+				r.Count("operator_requests_with_an_unprivileged_token", 1)
+				if errs[i] == nil {
+					r.Violate("C19-unprivileged-operator-request-took-effect", caseID, fmt.Sprintf("request %s (%s) with a token without sudo on the path was not refused", tag, k), map[string]any{"n": n, "kinds": kinds})
+				}
+				if !used {
+					uncountedOperator = append(uncountedOperator, tag+":"+k)
+				}
+			}
 		}
 		outs[i] = o
 	}
@@ -232,7 +248,14 @@ func c19Case(t *testing.T, v *vCore, r *kit.Result, caseID string, n int, kinds 
 	// Sequential history: the requests are presented one after the other, so the first n of them
 	// (whatever their outcome: served, denied by policy, failed in the backend) use the token up
 	// and every later one must be refused without reaching a handler.
-	if pol == nil {
+	// Refused seal / step-down requests present the token like any other request: while the token
+	// had uses left they must have been counted.
+	explained := false
+	if uses < n && len(uncountedOperator) > 0 {
+		explained = true
+		r.Violate("C19-refused-operator-request-consumed-no-use", caseID, fmt.Sprintf("token with num_uses=%d: only %d uses were accounted although %d refused operator request(s) %v also presented it", n, uses, len(uncountedOperator), uncountedOperator), wit)
+	}
+	if pol == nil && !explained {
 		for i := n; i < len(kinds); i++ {
 			tag := fmt.Sprintf("q%d", i)
 			_, used := useSeq[tag]
@@ -250,7 +273,7 @@ func c19Case(t *testing.T, v *vCore, r *kit.Result, caseID string, n int, kinds 
 	if uses > n {
 		r.Violate("C19-too-many-uses", caseID, fmt.Sprintf("token with num_uses=%d had %d requests accounted/authorised", n, uses), wit)
 	}
-	if len(kinds) >= n && uses < n {
+	if len(kinds) >= n && uses < n && !explained {
 		r.Violate("C19-too-few-uses", caseID, fmt.Sprintf("token with num_uses=%d: only %d of %d requests were accounted (a use was lost)", n, uses, len(kinds)), wit)
 	}
 	if readHandlers > okReads+0 && readHandlers > n {
@@ -268,6 +291,35 @@ func c19Case(t *testing.T, v *vCore, r *kit.Result, caseID string, n int, kinds 
 		if e, gerr := v.Core.tokenStore.idView(namespace.RootNamespace).Get(ctx, salted); gerr == nil && e != nil {
 			r.Count("final_use_revocation_queue_checks", 1)
 			if st := c19LeaseState(v, "auth/token/create/"+salted); st == "live" {
+				// which request took the final use? (the last use-write)
+				lastTag, lastSeq := "", uint64(0)
+				for tg, sq := range useSeq {
+					if sq >= lastSeq {
+						lastTag, lastSeq = tg, sq
+					}
+				}
+				lastKind := ""
+				for i, k := range kinds {
+					if fmt.Sprintf("q%d", i) == lastTag {
+						lastKind = k
+					}
+				}
+				if c19IsOperatorKind(lastKind) {
+					var lst []string
+					for _, l := range leasesIssued {
+						lst = append(lst, l+"="+c19LeaseState(v, l))
+					}
+					r.Violate(c19ClassRefusedFinal, caseID, fmt.Sprintf("token with num_uses=%d: the final use was taken by request %s (%s), which was refused by policy; every request has returned, the token's record is stored as revocation-pending and its own lease is neither gone nor due: the revocation of the token (with its leases %v and its cubbyhole) was never queued and will only happen when the token's TTL runs out", n, lastTag, lastKind, lst), wit)
+					c19RootRevoke(v, tok.ID)
+					if sched.Overlap() {
+						r.Count("overlapping_schedules", 1)
+						r.Nontrivial(fmt.Sprintf("%d|%v|%s", n, kinds, sched.Hash()))
+					}
+					if uses == n {
+						r.Count("exactly_n_uses", 1)
+					}
+					return sched, c19Budget(r, 50)
+				}
 				r.Violate("C19-final-use-did-not-queue-revocation", caseID, fmt.Sprintf("token with num_uses=%d: all %d uses are spent and every request has returned, but the token's record is present and its own lease is neither gone nor due: its revocation (with its leases and cubbyhole) was never queued", n, uses), wit)
 				return sched, true
 			}
@@ -286,10 +338,13 @@ func c19Case(t *testing.T, v *vCore, r *kit.Result, caseID string, n int, kinds 
 		}
 	}
 	v.WaitQuiet(10*time.Millisecond, 2*time.Second)
-	if v.TokenUsable(tok.ID, "") {
+	if usable := v.TokenUsable(tok.ID, ""); usable && !explained {
 		r.Violate("C19-token-usable-after-exhaustion", caseID, fmt.Sprintf("token with num_uses=%d still usable after %d requests", n, len(kinds)), wit)
 	}
 	for _, l := range leasesIssued {
+		if explained {
+			break // the token was never used up (reported above)
+		}
 		r.Count("leases_returned", 1)
 		if st := c19LeaseState(v, l); st == "live" {
 			r.Violate("C19-lease-live-after-exhaustion", caseID, "lease "+l+" returned under the token is still live after the token was exhausted", wit)
@@ -321,7 +376,31 @@ func c19Case(t *testing.T, v *vCore, r *kit.Result, caseID string, n int, kinds 
 	}
 	r.Count("requests", len(kinds))
 	r.Sample(wit)
-	return sched, r.NViolations() < 50
+	return sched, c19Budget(r, 50)
+}
+
+// c19Settle wraps a scheduling policy: before every decision it lets the goroutines that are
+// not under the gate - the expiration workers that carry out a queued token revocation - run
+// until the store has been quiet for a moment, so that "the revocation ran to completion between
+// two storage operations of a request" is a schedule that is explored on purpose and not only
+// when the machine happens to be fast. Scheduling only; no verdict depends on it.
+type c19Settle struct {
+	inner kit.Policy
+	v     *vCore
+}
+
+func (s c19Settle) Pick(step int, enabled []string, last string) (string, bool) {
+	lastN, since := s.v.Probe.LogLen(), time.Now()
+	deadline := since.Add(20 * time.Millisecond)
+	for time.Now().Before(deadline) {
+		time.Sleep(100 * time.Microsecond)
+		if n := s.v.Probe.LogLen(); n != lastN {
+			lastN, since = n, time.Now()
+		} else if time.Since(since) >= 400*time.Microsecond {
+			break
+		}
+	}
+	return s.inner.Pick(step, enabled, last)
 }
 
 func c19LeaseState(v *vCore, leaseID string) string {
@@ -407,7 +486,7 @@ func TestVerif_C19_Schedules(t *testing.T) {
 					if !kit.WantCase(caseID) {
 						return kit.Schedule{Diverged: true}, true
 					}
-					s, cont := c19Case(t, v, r, caseID, n, kinds, pol)
+					s, cont := c19Case(t, v, r, caseID, n, kinds, c19Settle{pol, v})
 					if !cont {
 						stop = true
 					}
@@ -426,7 +505,11 @@ func TestVerif_C19_Schedules(t *testing.T) {
 						tags[i] = fmt.Sprintf("q%d", i)
 					}
 					prng := kit.NewRand(seed, uint64(shard*100000+n*1000+c*100+k)*2+b2u(tx)+7_000_000)
-					if _, cont := c19Case(t, v, r, caseID, n, kinds, kit.NewPCT(prng, tags, 3, 12*m)); !cont {
+					var pol kit.Policy = kit.NewPCT(prng, tags, 3, 12*m)
+					if k%2 == 0 {
+						pol = c19Settle{pol, v}
+					}
+					if _, cont := c19Case(t, v, r, caseID, n, kinds, pol); !cont {
 						return
 					}
 				}
@@ -436,4 +519,108 @@ func TestVerif_C19_Schedules(t *testing.T) {
 	}
 	r.Require("overlapping_schedules", 100)
 	r.Require("exactly_n_uses", 100)
+}
+
+// TestVerif_C19_LeaseVsFinalUse: the race between a request that holds a non-final use and
+// generates a leased secret, and the request(s) that spend the remaining uses - whose queued
+// revocation lists the token's leases. Directed enumeration of every single-preemption
+// interleaving: the lease-generating request q0 runs j gate steps (j = 0, 1, 2, ... until it
+// would have finished), then the other request(s) run to completion one after the other, the
+// expiration workers are given time to carry out the revocation (c19Settle), then q0 finishes.
+// And the mirror image (the others first for j steps). Same oracle as the schedules monitor: a
+// lease that was returned must not be live once the token is used up and gone.
+func TestVerif_C19_LeaseVsFinalUse(t *testing.T) {
+	seed := kit.Seed(19)
+	if shard, _ := kit.Shard(); shard != 0 {
+		t.Skip("directed enumeration without randomness: shard 0 runs it")
+	}
+	r := kit.NewResult(t, "c19-lease-vs-final-use", seed, "n in 2..3, requests [lease, (lease,) X] with X in read/lookup-self/denied/lease/write presenting one n-use token plus one request too many; every interleaving with a single preemption of the first request after j gate steps (gate points sys/token/id/*, sys/expire/*), in both orders, expiration workers settled before every scheduling decision; oracle of the schedules monitor; non-trivial = requests overlapped, distinct by (n, kinds, op-order hash)")
+	defer r.Write(t)
+	for _, tx := range []bool{false, true} {
+		if kit.Tier() == "quick" && tx {
+			continue
+		}
+		v := c19Boot(t, tx)
+		for n := 2; n <= 3; n++ {
+			for xi, x := range []string{"read", "lookup-self", "denied", "lease", "write"} {
+				if kit.Tier() == "quick" && n == 3 && xi%2 == 1 {
+					continue
+				}
+				kinds := []string{"lease"}
+				for i := 0; i < n-2; i++ {
+					kinds = append(kinds, "lease")
+				}
+				kinds = append(kinds, x, "lookup-self") // n requests use the token up, one more is refused
+				for _, first := range []int{0, len(kinds) - 2} {
+					ftag := fmt.Sprintf("q%d", first)
+					for j := 0; j <= 24; j++ {
+						caseID := fmt.Sprintf("lvf:%v:%d:%s:%d:%d", tx, n, x, first, j)
+						if !kit.WantCase(caseID) {
+							continue
+						}
+						var choices []string
+						for i := 0; i < j; i++ {
+							choices = append(choices, ftag)
+						}
+						// then the others, in tag order, each to completion; the first request last
+						for i := range kinds {
+							if i != first {
+								choices = append(choices, fmt.Sprintf("q%d", i))
+								break
+							}
+						}
+						sched, cont := c19Case(t, v, r, caseID, n, kinds, c19Settle{c19RunOthersFirst{choices: choices, hold: ftag}, v})
+						if !cont {
+							return
+						}
+						if sched.Diverged {
+							break // q0 had fewer than j steps: all preemption points are covered
+						}
+					}
+				}
+			}
+		}
+		v.Close()
+	}
+	r.Require("overlapping_schedules", 60)
+	r.Require("exactly_n_uses", 60)
+	r.Require("leases_returned", 30)
+}
+
+// c19RunOthersFirst follows choices, then runs every request other than hold to completion
+// (keeping the last one while it is enabled), and hold only when nothing else is enabled.
+type c19RunOthersFirst struct {
+	choices []string
+	hold    string
+}
+
+func (s c19RunOthersFirst) Pick(step int, enabled []string, last string) (string, bool) {
+	if step < len(s.choices) {
+		for _, e := range enabled {
+			if e == s.choices[step] {
+				return e, false
+			}
+		}
+		// the scripted request is not enabled (finished or blocked): report divergence only when
+		// it was the held request's own prefix that ran out
+		div := s.choices[step] == s.hold
+		return s.rest(enabled, last), div
+	}
+	return s.rest(enabled, last), false
+}
+
+func (s c19RunOthersFirst) rest(enabled []string, last string) string {
+	if last != s.hold {
+		for _, e := range enabled {
+			if e == last {
+				return e
+			}
+		}
+	}
+	for _, e := range enabled {
+		if e != s.hold {
+			return e
+		}
+	}
+	return enabled[0]
 }
